@@ -204,6 +204,9 @@ RunResult run_pool(const Program &p, bool trace) {
     c.spurious_p = p.getd("spurious_p", 0);
     c.max_steps = p.getu("max_steps", 200000);
     c.trace = trace;
+    c.preempt_mem = sim::g_race_build;
+    c.preempt_mem_p = p.getd("preempt_mem_p", 0.05);
+    sim::g_race_property = "C06";
     sim::run_begin(c);
     install_violation_filter("C06");
     m_set_memhook(sk_malloc, sk_calloc, sk_free);
@@ -247,6 +250,12 @@ RunResult run_pool(const Program &p, bool trace) {
     if (w.flags & M_THPOOL_DETACHED) R->ctr.probe("detached_pool");
     if (w.flags & M_THPOOL_LAZY) R->ctr.probe("lazy_pool");
     R->ctr.probe("pool_threads", R->threads.size() - 1 - w.sub_ops.size());
+    if (sim::g_race_build) {
+        uint64_t acc, pre;
+        sim::race_stats(acc, pre);
+        R->ctr.probe("instrumented_accesses", acc);
+        if (pre) R->ctr.fault("preempt_at_memory_access", pre);
+    }
     g_stats.absorb_run();
     PW = nullptr;
     sim::run_end();
@@ -276,7 +285,12 @@ Program gen_pool(uint64_t seed, bool thorough) {
     p.set("new_afail", faults && r.chance(0.3) ? (long)r.below(8) : -1L);
     p.set("create_fail", cfaults ? (long)r.below(4) : -1L);
     p.set("free_afail", faults && r.chance(0.3) ? (long)r.below(3) : -1L);
+    p.setd("preempt_mem_p", r.chance(0.5) ? 0.05 : 0.2);
+#ifdef SIM_BUILD_RACE
+    p.set("build", "race");
+#else
     p.set("build", "asan");
+#endif
     int ntasks = (int)r.range(1, thorough ? 16 : 10);
     bool use_clear = r.chance(0.2);
     for (int i = 0; i < ntasks; i++) {
